@@ -82,7 +82,7 @@ def main():
             'quick_cmd': f'./check {pid} --tier quick',
             'thorough_cmd': f'./check {pid} --tier thorough',
             'evidence_file': f'evidence/{pid}.json',
-            'replay_cmd_template': './check --show-replay {path}',
+            'replay_cmd_template': './check --replay {path}',
             'engine': 'verus+kani',
             'level_claimed': {'category': 'proof', 'text': LEVEL_TEXT.get(pid, P['title']), 'design_ref': P.get('design_ref', '')},
             'level_note': '; '.join(P.get('assumptions', []))[:3000],
